@@ -152,6 +152,10 @@ def js_execute(rec, seed=0):
     msg = "the message"
     defaults = {k: "tok%d" % v for k, v in rec["defaults"]}
     data = {k: "tok%d" % v for k, v in rec["data"]}
+    if seed % 4 == 1 and seed % 3 != 2 and "7" not in data and "7" not in defaults:
+        # a key that is no string next to the text keys: JSON spells it "7"
+        data[7] = "tok77"
+        rec = dict(rec, data=list(rec["data"]) + [["7", 77]])
     datefmt = [None, "%Y", "%H:%M"][seed % 3] if rec["addtime"] else ["", 0, False][seed % 3]
     exc = ""
     out_pairs, isobj = [], False
